@@ -1344,9 +1344,14 @@ class sliding_window(Stream):
         self.metadata_buffer.append(metadata)
         if self.partial or len(self._buffer) == self.n:
             flat_metadata = [m for ml in self.metadata_buffer for m in ml]
-            ret = self._emit(tuple(self._buffer), flat_metadata)
+            # take the oldest entry out before emitting: with a feedback edge
+            # the emission can re-enter update(), and the bounded deque would
+            # otherwise drop that entry without its references being released
+            completed = None
             if len(self.metadata_buffer) == self.n:
                 completed = self.metadata_buffer.popleft()
+            ret = self._emit(tuple(self._buffer), flat_metadata)
+            if completed is not None:
                 self._release_refs(completed)
             return ret
         else:
